@@ -18,6 +18,7 @@ var checks = map[string]func(*core.Ctx){
 	"C18": props.C18,
 	"C19": props.C19,
 	"C06": props.C06,
+	"C13": props.C13,
 	"C20": props.C20,
 	"C14": props.C14,
 	"C15": props.C15,
